@@ -40,8 +40,10 @@ def main(tier):
             pick.append([{"g": 0, "start": "cold", "cfg": c, "flagged": False}, {"g": 1, "start": "prev", "cfg": c, "flagged": False}])
         cases = [dict(mol=m, walk=w) for m in (("h2o", "ch4") if tier == "quick" else ("h2o", "ch4", "h2co", "nh3")) for w in pick]
         # mixed batches (rows converge at different iterations, different occupation counts): every configuration, cold and restarted
-        for mates, m in ((["h2o"], "h2co"), (["h2"], "h2co"), (["h2co"], "h2o"), (["h2", "ch4"], "nh3")) if tier == "thorough" else ((["h2o"], "h2co"), (["h2"], "ch4")):
+        for mates, m in ((["h2o"], "h2co"), (["h2"], "h2co"), (["h2co"], "h2o"), (["h2", "ch4"], "nh3"), (["ch4"], "h2"), (["c2h4"], "hf")) if tier == "thorough" else ((["h2o"], "h2co"), (["h2"], "ch4"), (["ch4"], "h2"), (["c2h4"], "hf")):
             for c in sorted(cfgs):
+                if c.startswith("ksa") and "h2" in mates + [m]:
+                    continue        # Krylov rank must not exceed the number of occupied x virtual pairs (1 for H2)
                 cases.append(dict(mol=m, mates=mates, walk=[{"g": 0, "start": "cold", "cfg": c, "flagged": False}, {"g": 1, "start": "prev", "cfg": c, "flagged": False}]))
         res = common.run_forked(cases, hist_driver.run_walk, timeout=900)
         byg = {}
@@ -78,7 +80,7 @@ def main(tier):
             "states": r.distinct + g.distinct, "transitions": r.generated + g.generated, "traces_validated_against_impl": len(cases), "solves": n_solves, "class_comparisons": n_pairs,
             "samples": [{"mol": c["mol"], "walk": c["walk"]} for c in cases[:2]], "calibration_largest_difference_over_bound": worst, "walks_exported": len(walks),
             "evaluations": len(cases), "distinct_nontrivial": len({common.sha([c["mol"], c["walk"]]) for c in cases if any(s["start"] != "cold" for s in c["walk"])}),
-            "rule": "walks of length 2 over 2 geometries x 3 start densities x 12 solver configurations exported by TLC, sampled by VERIF_SEED plus one cold+prev walk per configuration; non-trivial = some solve restarts from a previous or perturbed density", "exhaustive": False,
+            "rule": "walks of length 2 over 2 geometries x 3 start densities x 14 solver configurations exported by TLC, sampled by VERIF_SEED plus one cold+prev walk per configuration; non-trivial = some solve restarts from a previous or perturbed density", "exhaustive": False,
             "bounds": {"K": K, "FLOOR": FLOOR},
         }
         return rep.finish(cov, assumptions=["premise of the property: single stable closed-shell solution (small near-equilibrium molecules)", "constants K calibrated, not derived", "monotone approach under tightening not decided"])
